@@ -158,6 +158,21 @@ def eval_case(case):
         if len(node.ins) == 0 or node.ins[0] is None: continue
         if not np.array_equal(out2[j] & mask, exp2[j] & mask):
             return False, {'clause': 'override-downstream', 'line': x, 's_node': j, 'got': out2[j].tolist()}, {'cut_and_driven': exp2[j].tolist()}
+    # the same overwriting run WITH c_reuse (memory of dead lines is handed to later ones): the callback must see the same calls with the
+    # same values and the captured results must be those of the cut-and-driven circuit (line values in memory are not compared: re-used)
+    if case['reuse']:
+        log2r, first = log2[:], len(log2)
+        ls3, out3 = sim_run(c, m, sims, stim, case['strip'], True, inj)
+        log3 = log2[first:]; del log2[first:]
+        case['_force_reuse'] = 1
+        if [(a, b) for a, b, _ in log3] != [(a, b) for a, b, _ in log2r] or any(not np.array_equal(u[2], v[2]) for u, v in zip(log3, log2r)):
+            k = next((i for i, (u, v) in enumerate(zip(log3, log2r)) if u[0] != v[0] or u[1] != v[1] or not np.array_equal(u[2], v[2])), min(len(log3), len(log2r)))
+            return False, {'clause': 'override-with-reuse-calls', 'line': x, 'call': k, 'with_reuse': [int(t[0]) for t in log3][:k + 2]}, {'without_reuse': [int(t[0]) for t in log2r][:k + 2]}
+        for j in range(out3.shape[0]):
+            node = c.s_nodes[j]
+            if len(node.ins) == 0 or node.ins[0] is None: continue
+            if not np.array_equal(out3[j] & mask, exp2[j] & mask):
+                return False, {'clause': 'override-downstream-with-reuse', 'line': x, 's_node': j, 'got': out3[j].tolist()}, {'cut_and_driven': exp2[j].tolist()}
     # upstream: lines evaluated before x keep the reference values
     for li in exp_calls[:exp_calls.index(x)]:
         if not np.array_equal(ls2.c[ls2.c_locs[li]], ref.c[ref.c_locs[li]]):
@@ -188,6 +203,7 @@ def oracle(ck, n, thorough=False):
             ok, obs, exp = False, {'raised': f'{type(ex).__name__}: {ex}'[:300]}, None
         hyp_tag = common.allcirc_hyp(ck, pickle.loads(base64.b64decode(cs['circuit'])), [cs['strip']], 'C16')
         tie, fh, later, scr = cs.pop('_tie', 'not-run'), cs.pop('_force_hyp', 'none'), cs.pop('_frame_later', 0), cs.pop('_scratch', 0)
+        if cs.pop('_force_reuse', 0): ck.hist['override-with-c_reuse:run'] += 1
         ck.case(key=(cs['circuit'][:80], cs['m'], cs['strip'], cs['reuse'], round(cs['pick'], 3)),
                 sample={k: v for k, v in cs.items() if k != 'circuit'},
                 tag=[f"m:{cs['m']}", f"strip:{cs['strip']}", f"reuse:{cs['reuse']}", f"sims:{cs['sims']}", hyp_tag,
